@@ -107,7 +107,9 @@ func (u *Unit) freshResults(s *State, name string, sig *types.Signature) []Term 
 	for i := 0; i < sig.Results().Len(); i++ {
 		t := sig.Results().At(i).Type()
 		r := u.freshT("ret."+shortCallee(name), t)
-		u.typeFacts(s, r, t)
+		if name != "fmt.Errorf" && name != "errors.New" { // their result is a new error value, not an existing one
+			u.typeFacts(s, r, t)
+		}
 		res = append(res, r)
 	}
 	return res
